@@ -266,6 +266,10 @@ def run_c04_don(case):
             net = make_net(case, case["nets"][0], 0)
             fset = make_fset(case, case["fsets"][0])
             cond = make_cond(cs, net, fset, 0)
+            neighbour = None
+            if len(case["fsets"]) > 1:
+                neighbour = make_cond(dict(cs, sampler={"kind": "data", "pts": [0.3, 0.7]}, resid="u_minus_f"), net,
+                                      make_fset(case, case["fsets"][1]), 1)
             for step in range(int(case.get("evals", 2))):
                 sim.reseed(H(case["rng"], "op", step))
                 sim.begin_op()
@@ -280,6 +284,20 @@ def run_c04_don(case):
                                     got=la, want=want, functions=int(len(ks)) if ks is not None else None, points=int(len(pts)),
                                     udim=int(case.get("udim", 1)), eval=step))
                     break
+                if neighbour is not None and not case["fsets"][0].get("kn"):
+                    # a second condition on the SAME network with another function set is evaluated in the same
+                    # iteration (as a Solver does), then this one again: still its own functions, its own loss
+                    sim.reseed(H(case["rng"], "op", step, "neighbour"))
+                    float(neighbour(device="cpu", iteration=step))
+                    sim.reseed(H(case["rng"], "op", step, "again"))
+                    lb = float(cond(device="cpu", iteration=step))
+                    pts2 = cond.input_sampler._verif_drawn[-1]
+                    want2 = direct_loss(case, cs, net, case["nets"][0], 0, case["fsets"][0], pts2, ks=ks)
+                    stats["evals_judged"] = stats.get("evals_judged", 0) + 1
+                    if not math.isclose(lb, want2, rel_tol=1e-4, abs_tol=1e-7):
+                        out.append(viol("C04", "reduce", "deeponet-loss-changes-after-a-neighbour-condition-in-the-same-iteration",
+                                        cs.get("cls", "pi"), got=lb, want=want2, eval=step))
+                        break
                 perturb(net, step + 1)
         except Exception as ex:
             out.append(viol("C04", "run", "raises:" + type(ex).__name__, innermost_site(ex.__traceback__),
